@@ -24,6 +24,9 @@ type Servers struct {
 	Net        []*Msg
 	Violations []Violation
 	seq        int
+	// Durable counts the durable writes each node has started so far; crashArmed holds pending crash orders.
+	Durable    map[uint64]int
+	crashArmed map[uint64]crashSpec
 	// Deaf members lose the appends and snapshots addressed to them (they lag behind; heartbeats and votes still arrive).
 	Deaf map[uint64]bool
 	// FailSend, when set, decides that the RPC carrying a raft message fails at the sender.
@@ -35,8 +38,29 @@ func NewServers() *Servers {
 	world.Quiet()
 	fakes.Reset()
 	vrt.ResetContexts()
-	w := &Servers{S: vrt.New(), Deaf: map[uint64]bool{}}
+	w := &Servers{S: vrt.New(), Deaf: map[uint64]bool{}, Durable: map[uint64]int{}, crashArmed: map[uint64]crashSpec{}}
 	w.S.Horizon = 20000000
+	w.S.OnDurable = func(t *vrt.Thread, site string, after bool) bool {
+		id := nodeOf(t.Name)
+		if !after {
+			w.Durable[id]++
+		}
+		c, ok := w.crashArmed[id]
+		if !ok || c.after != after {
+			return false
+		}
+		c.count--
+		if c.count > 0 {
+			w.crashArmed[id] = c
+			return false
+		}
+		delete(w.crashArmed, id)
+		if n := w.Node(id); n != nil {
+			n.Crashed = true
+		}
+		delete(fakes.Registry, world.ServerAddr(id))
+		return true
+	}
 	fakes.Intercept = w.intercept
 	w.S.Begin()
 	return w
@@ -126,6 +150,12 @@ func (w *Servers) Crash(id uint64) {
 	delete(fakes.Registry, world.ServerAddr(id))
 	// messages to a dead node are lost when delivered; messages from it stay in flight
 }
+
+// ArmCrash makes node id crash at its count-th durable write from now, before or after it.
+func (w *Servers) ArmCrash(id uint64, count int, after bool) { w.crashArmed[id] = crashSpec{count, after} }
+
+// Disarm removes every pending crash order.
+func (w *Servers) Disarm() { w.crashArmed = map[uint64]crashSpec{} }
 
 func (w *Servers) intercept(target, method string, ctx context.Context, req interface{}) (bool, interface{}, error) {
 	if method != "Receive" {
